@@ -153,6 +153,26 @@ func (r *Run) Expired() bool {
 	return false
 }
 
+// Share returns an "expired" predicate for the i-th of n work items (0-based) that gives
+// every remaining item an equal share of what is left of the budget, so that one large
+// item cannot starve the ones after it. Hitting a share marks the run as not exhaustive.
+func (r *Run) Share(i, n int) func() bool {
+	left := n - i
+	if left < 1 {
+		left = 1
+	}
+	deadline := time.Now().Add(r.Remaining() / time.Duration(left))
+	return func() bool {
+		if time.Now().After(deadline) {
+			r.mu.Lock()
+			r.timedOut = true
+			r.mu.Unlock()
+			return true
+		}
+		return r.Expired()
+	}
+}
+
 // Remaining budget.
 func (r *Run) Remaining() time.Duration { return time.Until(r.deadline) }
 
